@@ -64,8 +64,12 @@ def _iter_fasta_index(fname, seek=None, silent=False):
                 except IndexError as ex:
                     raise ValueError(f'Pos {start}, empty id') from ex
                 startline = f.tell()
-                f.readline()
-                endline = f.tell()
+                if f.find(b'>', startline, startline + 1) == startline:
+                    # empty record, the next header line follows directly
+                    endline = startline
+                else:
+                    f.readline()
+                    endline = f.tell()
                 start = f.find(b'>', endline)
                 if endline == start or start == -1 and endline == total:
                     linelen = 0
